@@ -65,6 +65,10 @@ def gen_case(seed, i, tier, focus='default', loading=False, tag='seq'):
         if s >= 1 and r.chance(0.9 if focus == 'partial' else 0.35):
             # a later session starts with a partly loaded collection and a pending change (see op_partial)
             ops.insert(0, ['partial', r.below(1000), r.below(1000), r.below(1000)])
+        if focus == 'keys' and s >= 1 and r.chance(0.3):
+            # the session's first write is obj.flush() of a new object (outside SessionCache.flush), more keys follow
+            ops[0:0] = [['new', r.below(1000), r.below(1000), r.below(1000)],
+                        ['oflush_new', r.below(1000), r.below(1000), r.below(1000)]]
         end = r.weighted([('exit', 7), ('raise', 1.5), ('rollback', 1.5)])
         sessions.append({'opts': r.weighted(SESSION_OPTS), 'ops': ops, 'end': end})
     knobs = {'fetch': r.below(3)}
